@@ -14,6 +14,7 @@ import Proofs.SeqInv
 import Proofs.RefsInv
 import Properties.C02
 import Proofs.AddSpec
+import Proofs.BasesInv
 import Mathlib.Tactic.Ring
 namespace Pulser
 namespace C07
@@ -222,6 +223,16 @@ theorem trackers_invariant (dev : Device) (nQ : Nat) (s : SeqState) (hr : C02.Re
       | call op => exact stepRaw_refs s op h
       | oracle n d du fs fe => exact h
   exact key evs _ (by intro p hp; simp [SeqState.init] at hp)
+
+/-- **The phase references of the basis of every declared channel exist**, in every reachable state
+(declaring a channel creates them, no call removes them): the references a pulse is added to are
+always there. -/
+theorem bases_addressed (dev : Device) (nQ : Nat) (s : SeqState) (hr : C02.Reach dev nQ s) :
+    ∀ c ∈ s.chans, (s.getRefs c.cfg.basis).isSome = true := by
+  obtain ⟨evs, rfl⟩ := hr
+  intro c hc
+  exact (Keys.hasB_iff _).mp
+    (runEv_bases _ evs (by intro c hc; simp [SeqState.init] at hc) c hc)
 
 theorem find_map_same (refs : List (Basis × List QRef)) (b : Basis) (l : List QRef)
     (h : (refs.find? (·.1 == b)).isSome = true) :
